@@ -104,7 +104,14 @@ func GenPool(r *rand.Rand, n int, fanout bool) []string {
 		})
 	}
 	// structural families the trie-growing generator rarely produces
-	switch r.IntN(6) {
+	switch r.IntN(5) {
+	case 2:
+		// one infix catch-all followed by more text in a node key that has children, and the pattern ending exactly on it
+		for _, p := range []string{"/v/*{c1}/b/c", "/v/*{c1}/b/d", "/v/*{c1}/b/", "/v/*{c1}/b/c/x", "/v/*{c1}/b/{p3}", "/v/*{c1}/b"} {
+			if r.IntN(5) > 0 {
+				add(p)
+			}
+		}
 	case 0:
 		// a node with several children that have distinct first bytes (registered one by one, in any order, by the
 		// histories): children slices grow, are re-sorted and shrink
@@ -391,6 +398,55 @@ func GenPartial(r *rand.Rand, c *Case, num, den int) {
 		if r.IntN(den) < num {
 			c.Ops = append(c.Ops, Op{Kind: "handle", Method: c.Methods[0], Pattern: c.Pool[i]})
 		}
+	}
+}
+
+// GenProgram appends a short directed program for the first method: a pool pattern that others extend and up to
+// three of its extensions, written in a random order (below first then the prefix itself, or the reverse), each by a
+// random write kind. It complements GenOps, in which two related writes in one program are rare.
+func GenProgram(r *rand.Rand, c *Case) {
+	m := c.Methods[0]
+	var anchors []string
+	ext := map[string][]string{}
+	for _, l := range c.Pool {
+		for _, q := range c.Pool {
+			if q != l && strings.HasPrefix(q, l) {
+				ext[l] = append(ext[l], q)
+			}
+		}
+		if len(ext[l]) > 0 {
+			anchors = append(anchors, l)
+		}
+	}
+	if len(anchors) == 0 {
+		GenOps(r, c, len(c.Ops)+3+r.IntN(4), 0, false)
+		return
+	}
+	l := anchors[r.IntN(len(anchors))]
+	// prefer anchors whose key holds an infix catch-all (their nodes carry derived data of their own)
+	var infix []string
+	for _, a := range anchors {
+		if k := strings.Index(a, "*{"); k >= 0 && strings.IndexByte(a[k:], '}') < len(a[k:])-1 {
+			infix = append(infix, a)
+		}
+	}
+	if len(infix) > 0 && r.IntN(3) > 0 {
+		l = infix[r.IntN(len(infix))]
+	}
+	set := []string{l}
+	e := ext[l]
+	for _, i := range r.Perm(len(e)) {
+		if len(set) < 2+r.IntN(3) {
+			set = append(set, e[i])
+		}
+	}
+	r.Shuffle(len(set), func(i, j int) { set[i], set[j] = set[j], set[i] })
+	for _, p := range set {
+		kind := []string{"handle", "handle", "update", "delete", "handleroute", "updateroute"}[r.IntN(6)]
+		c.Ops = append(c.Ops, Op{Kind: kind, Method: m, Pattern: p})
+	}
+	if r.IntN(2) == 0 {
+		c.Ops = append(c.Ops, Op{Kind: "handle", Method: m, Pattern: l})
 	}
 }
 
